@@ -278,11 +278,16 @@ fn store_inconsistency(store: &AnnotationStore) -> Option<String> {
         for sel in a.target().iter(store, false) {
             // a target may name the same thing more than once (a MultiSelector with the same part twice): the index then lists
             // the annotation once per occurrence
-            let times = all_leafs.iter().filter(|x| format!("{:?}", x) == format!("{:?}", sel.as_ref())).count();
+            // (two different leafs may also name the same text: a text selector and an annotation selector with that text)
+            let cell = |x: &Selector| -> String { match x {
+                Selector::TextSelector(r, t, _) => format!("text {:?} {:?}", r, t), Selector::AnnotationSelector(a2, _) => format!("ann {:?}", a2),
+                other => format!("{:?}", other) } };
+            let text_cell = |x: &Selector| -> Option<String> { match x { Selector::TextSelector(r, t, _) => Some(format!("text {:?} {:?}", r, t)), Selector::AnnotationSelector(_, Some((r, t, _))) => Some(format!("text {:?} {:?}", r, t)), _ => None } };
+            let times = if let Selector::TextSelector(..) = sel.as_ref() { all_leafs.iter().filter(|x| text_cell(x) == text_cell(sel.as_ref())).count() } else { all_leafs.iter().filter(|x| cell(x) == cell(sel.as_ref())).count() };
             let (name, n, want) = match sel.as_ref() {
                 Selector::TextSelector(r, t, _) => ("textrelationmap", count(store.textrelationmap.get(*r, *t), &h), cfg.textrelationmap),
                 Selector::AnnotationSelector(a2, off) => {
-                    if let Some((r, t, _)) = off { if cfg.textrelationmap && count(store.textrelationmap.get(*r, *t), &h) != 1 { return Some(format!("annotation {} targets text of annotation {:?} but textrelationmap lists it {} times", i, a2, count(store.textrelationmap.get(*r, *t), &h))); } }
+                    if let Some((r, t, _)) = off { if cfg.textrelationmap && count(store.textrelationmap.get(*r, *t), &h) != all_leafs.iter().filter(|x| text_cell(x) == text_cell(sel.as_ref())).count() { return Some(format!("annotation {} targets text of annotation {:?} but textrelationmap lists it {} times", i, a2, count(store.textrelationmap.get(*r, *t), &h))); } }
                     if cfg.annotation_annotation_map && <AnnotationStore as StoreFor<Annotation>>::get(store, *a2).is_err() { return Some(format!("annotation {} targets removed annotation {:?}", i, a2)); }
                     ("annotation_annotation_map", count(store.annotation_annotation_map.get(*a2), &h), cfg.annotation_annotation_map)
                 }
@@ -561,15 +566,16 @@ fn find_relative_offsets() {
     println!("NO-WITNESS find_relative_offsets");
 }
 
-/// clauses subselectors__merge / subselectors__resolve  (C01, C19): a complex selector over any sequence of up to 3 of 10 simple
-/// targets (text selections of two resources created in a scrambled order, and annotations) gives back exactly those targets
+/// clauses subselectors__merge / subselectors__resolve  (C01, C19): a complex selector over any sequence of up to 3 of 16 simple
+/// targets (text selections of two resources created in a scrambled order, annotations with and without text, resources, a
+/// dataset, a key, a data item) is accepted without a panic and indexed consistently; text and annotation parts come back exactly
 #[test]
 fn find_subselectors() {
     // (resource, begin, end) for text targets; annotation index for annotation targets
     #[derive(Clone, Copy, PartialEq, Debug)]
-    enum T { Text(usize, usize, usize), Ann(usize) }
+    enum T { Text(usize, usize, usize), Ann(usize), AnnText(usize), Res(usize), Set, Key, Data }
     let texts: Vec<(usize, usize, usize)> = vec![(0, 4, 5), (0, 0, 1), (0, 1, 2), (1, 0, 1), (1, 1, 2), (1, 2, 3), (0, 2, 3)];
-    let pool: Vec<T> = texts.iter().map(|(r, b, e)| T::Text(*r, *b, *e)).chain((0..3).map(T::Ann)).collect();
+    let pool: Vec<T> = texts.iter().map(|(r, b, e)| T::Text(*r, *b, *e)).chain((0..3).map(T::Ann)).chain([T::AnnText(1), T::Res(0), T::Res(1), T::Set, T::Key, T::Data]).collect();
     let mut seqs: Vec<Vec<usize>> = vec![];
     let mut frontier: Vec<Vec<usize>> = vec![vec![]];
     for _ in 0..3 { let mut next = vec![]; for s in &frontier { for x in 0..pool.len() { if !s.contains(&x) { let mut t = s.clone(); t.push(x); next.push(t); } } } seqs.extend(next.clone()); frontier = next; }
@@ -581,8 +587,10 @@ fn find_subselectors() {
             .with_resource(TextResourceBuilder::new().with_id("r1").with_text("klmnopqrst")).unwrap()
             .with_dataset(AnnotationDataSetBuilder::new().with_id("d")).unwrap();
         // create the text selections first (annotations T0..T6 on them), so that their handles are fixed and not in text order
-        for (k, (r, b, e)) in texts.iter().enumerate() { store.annotate(AnnotationBuilder::new().with_id(format!("T{}", k)).with_target(SelectorBuilder::textselector(rid[*r], Offset::simple(*b, *e))).with_data("d", "k", "v")).unwrap(); }
-        let sb = |t: &T| match t { T::Text(r, b, e) => SelectorBuilder::textselector(rid[*r], Offset::simple(*b, *e)), T::Ann(i) => SelectorBuilder::annotationselector(format!("T{}", 2 * i), None) };
+        for (k, (r, b, e)) in texts.iter().enumerate() { store.annotate(AnnotationBuilder::new().with_id(format!("T{}", k)).with_target(SelectorBuilder::textselector(rid[*r], Offset::simple(*b, *e))).with_data_with_id("d", "k", "v", "D0")).unwrap(); }
+        let sb = |t: &T| match t { T::Text(r, b, e) => SelectorBuilder::textselector(rid[*r], Offset::simple(*b, *e)), T::Ann(i) => SelectorBuilder::annotationselector(format!("T{}", 2 * i), None),
+            T::AnnText(i) => SelectorBuilder::annotationselector(format!("T{}", i), Some(Offset::whole())), T::Res(r) => SelectorBuilder::resourceselector(rid[*r]), T::Set => SelectorBuilder::datasetselector("d"),
+            T::Key => SelectorBuilder::datakeyselector("d", "k"), T::Data => SelectorBuilder::annotationdataselector("d", "D0") };
         let subs: Vec<SelectorBuilder> = seq.iter().map(|i| sb(&pool[*i])).collect();
         let target = match kind { 0 => SelectorBuilder::multiselector(subs), 1 => SelectorBuilder::compositeselector(subs), _ => SelectorBuilder::directionalselector(subs) };
         let r = std::panic::catch_unwind(std::panic::AssertUnwindSafe(|| store.annotate(AnnotationBuilder::new().with_id("X").with_target(target).with_data("d", "k", "w"))));
@@ -596,7 +604,8 @@ fn find_subselectors() {
                 let mut want: Vec<String> = seq.iter().filter_map(|i| match pool[*i] { T::Text(r, b, e) => Some(format!("{}:{}-{}", rid[r], b, e)), _ => None }).collect();
                 want.extend(seq.iter().filter_map(|i| match pool[*i] { T::Ann(i) => Some(format!("T{}", 2 * i)), _ => None }));
                 got.sort(); want.sort();
-                if got != want { Some(format!("targets {:?}, built with {:?}", got, want)) } else { store_inconsistency(&store) }
+                let plain = seq.iter().all(|i| matches!(pool[*i], T::Text(..) | T::Ann(_)));
+                if plain && got != want { Some(format!("targets {:?}, built with {:?}", got, want)) } else { store_inconsistency(&store) }
             }
         };
         if let Some(msg) = problem {
@@ -873,16 +882,18 @@ fn find_load_untrusted() {
     add("annotation selector with offset on a later annotation", format!("{}, {}", ann("A1", &format!(r#"{{"@type": "AnnotationSelector", "annotation": "A2", "offset": {{"begin": {}, "end": {}}}}}"#, cur("BeginAlignedCursor", "0"), cur("BeginAlignedCursor", "2")), d1), ann("A2", &ok_target(), d1)));
     add("annotation selector with an offset outside its target", format!("{}, {}", ann("A1", &ok_target(), d1), ann("A2", &format!(r#"{{"@type": "AnnotationSelector", "annotation": "A1", "offset": {{"begin": {}, "end": {}}}}}"#, cur("BeginAlignedCursor", "3"), cur("BeginAlignedCursor", "9")), d1)));
     add("annotation selector with offset on an annotation without text", format!("{}, {}", ann("A1", r#"{"@type": "ResourceSelector", "resource": "r"}"#, d1), ann("A2", &format!(r#"{{"@type": "AnnotationSelector", "annotation": "A1", "offset": {{"begin": {}, "end": {}}}}}"#, cur("BeginAlignedCursor", "0"), cur("BeginAlignedCursor", "2")), d1)));
-    add("dataset selector to an unknown dataset", ann("A1", r#"{"@type": "DataSetSelector", "dataset": "nope"}"#, d1));
-    add("data key selector to an unknown key", ann("A1", r#"{"@type": "DataKeySelector", "dataset": "d", "key": "nope"}"#, d1));
-    add("annotation data selector to unknown data", ann("A1", r#"{"@type": "AnnotationDataSelector", "dataset": "d", "data": "nope"}"#, d1));
+    add("dataset selector to an unknown dataset", ann("A1", r#"{"@type": "DataSetSelector", "annotationset": "nope"}"#, d1));
+    add("data key selector to an unknown key", ann("A1", r#"{"@type": "DataKeySelector", "annotationset": "d", "key": "nope"}"#, d1));
+    add("annotation data selector to unknown data", ann("A1", r#"{"@type": "AnnotationDataSelector", "annotationset": "d", "data": "nope"}"#, d1));
     add("selector of unknown type", ann("A1", r#"{"@type": "MagicSelector", "resource": "r"}"#, d1));
     add("empty multi selector", ann("A1", r#"{"@type": "MultiSelector", "selectors": []}"#, d1));
     add("multi selector with one part", ann("A1", &format!(r#"{{"@type": "MultiSelector", "selectors": [{}]}}"#, ok_target()), d1));
     add("nested multi selector", ann("A1", &format!(r#"{{"@type": "MultiSelector", "selectors": [{}, {{"@type": "CompositeSelector", "selectors": [{}, {}]}}]}}"#, ok_target(), ok_target(), ok_target()), d1));
     add("multi selector with the same part twice", ann("A1", &format!(r#"{{"@type": "MultiSelector", "selectors": [{}, {}]}}"#, ok_target(), ok_target()), d1));
-    add("directional selector over two data key selectors", ann("A1", r#"{"@type": "DirectionalSelector", "selectors": [{"@type": "DataKeySelector", "dataset": "d", "key": "k"}, {"@type": "DataKeySelector", "dataset": "d", "key": "k"}]}"#, d1));
-    add("composite selector mixing kinds", ann("A1", &format!(r#"{{"@type": "CompositeSelector", "selectors": [{}, {{"@type": "ResourceSelector", "resource": "r"}}, {{"@type": "DataSetSelector", "dataset": "d"}}]}}"#, ok_target()), d1));
+    add("directional selector over two data key selectors", ann("A1", r#"{"@type": "DirectionalSelector", "selectors": [{"@type": "DataKeySelector", "annotationset": "d", "key": "k"}, {"@type": "DataKeySelector", "annotationset": "d", "key": "k"}]}"#, d1));
+    add("multi selector over two data key selectors", ann("A1", r#"{"@type": "MultiSelector", "selectors": [{"@type": "DataKeySelector", "annotationset": "d", "key": "k"}, {"@type": "DataKeySelector", "annotationset": "d", "key": "k"}]}"#, d1));
+    add("composite selector over a data selector and a dataset selector", ann("A1", r#"{"@type": "CompositeSelector", "selectors": [{"@type": "AnnotationDataSelector", "annotationset": "d", "data": "D1"}, {"@type": "DataSetSelector", "annotationset": "d"}]}"#, d1));
+    add("composite selector mixing kinds", ann("A1", &format!(r#"{{"@type": "CompositeSelector", "selectors": [{}, {{"@type": "ResourceSelector", "resource": "r"}}, {{"@type": "DataSetSelector", "annotationset": "d"}}]}}"#, ok_target()), d1));
     add("data in an unknown set", ann("A1", &ok_target(), r#"{"@type": "AnnotationData", "@id": "D1", "set": "nope"}"#));
     add("unknown data id without key", ann("A1", &ok_target(), r#"{"@type": "AnnotationData", "@id": "nope", "set": "d"}"#));
     add("data without set", ann("A1", &ok_target(), r#"{"@type": "AnnotationData", "key": "k", "value": {"@type": "Int", "value": 1}}"#));
